@@ -4,6 +4,7 @@ import (
 	"bytes"
 	"context"
 	"encoding/json"
+	"math"
 	"sort"
 	"strings"
 
@@ -135,6 +136,12 @@ func (s *Set) SortedItems() []Object {
 			return h1.StrValue < h2.StrValue
 		}
 		if h1.FltValue != h2.FltValue {
+			// NaN is neither less nor greater than anything, which is no
+			// order to sort by: it sorts before every other float
+			nan1, nan2 := math.IsNaN(h1.FltValue), math.IsNaN(h2.FltValue)
+			if nan1 || nan2 {
+				return nan1 && !nan2
+			}
 			return h1.FltValue < h2.FltValue
 		}
 		return false
